@@ -45,4 +45,10 @@ SPECS = {
  'ext2inv': {'src': src('ext2inv'), 'pre': ['adv.len() >= 2'],
     'post': ['r[0] == adv[1] && r[1] == adv[0]', 'rest_ok(s0, r, 2, 2)'],
     'fails': '!(ext2_c0(adv[0].val(), adv[1].val(), s0[1].val(), s0[0].val()) == 1 && ext2_c1(adv[0].val(), adv[1].val(), s0[1].val(), s0[0].val()) == 0)'},
+ # ext2div: [b1, b0, a1, a0, ...] -> [c1, c0, ...]; whatever (b0', b1') the host supplies, the run completes exactly when
+ # b * b' = (1, 0), i.e. b' is THE inverse of b, and then leaves a * b' = a / b
+ 'ext2div': {'src': src('ext2div'), 'pre': ['adv.len() >= 2'],
+    'post': ['r[1].val() == ext2_c0(adv[0].val(), adv[1].val(), s0[3].val(), s0[2].val())',
+             'r[0].val() == ext2_c1(adv[0].val(), adv[1].val(), s0[3].val(), s0[2].val())', 'rest_ok(s0, r, 4, 2)'],
+    'fails': '!(ext2_c0(adv[0].val(), adv[1].val(), s0[1].val(), s0[0].val()) == 1 && ext2_c1(adv[0].val(), adv[1].val(), s0[1].val(), s0[0].val()) == 0)'},
 }
